@@ -713,7 +713,11 @@ hwloc_distances_add_commit(hwloc_topology_t topology,
   }
 
   /* in case we added some groups, see if we need to reconnect */
-  hwloc__reconnect(topology, 0);
+  if (topology->modified) {
+    hwloc__reconnect(topology, 0);
+    /* same post-processing as when the user inserts a Group */
+    hwloc__update_after_group_insertion(topology);
+  }
 
   return 0;
 
